@@ -256,7 +256,21 @@ func (s *Server) doPut(r *pb.PutRequest, client string, bump bool) (*pb.PutRespo
 	if prev := s.kvs[string(r.Key)]; prev != nil && r.PrevKv {
 		resp.PrevKv = s.toKV(string(r.Key), prev)
 	}
-	s.putKey(string(r.Key), r.Value, r.Lease, client)
+	val, lease := r.Value, r.Lease
+	if r.IgnoreLease || r.IgnoreValue {
+		// etcd: the key must exist; its current lease / value is kept
+		prev := s.kvs[string(r.Key)]
+		if prev == nil {
+			return nil, rpctypes.ErrKeyNotFound
+		}
+		if r.IgnoreLease {
+			lease = prev.lease
+		}
+		if r.IgnoreValue {
+			val = prev.value
+		}
+	}
+	s.putKey(string(r.Key), val, lease, client)
 	resp.Header = s.header()
 	return resp, nil
 }
